@@ -288,6 +288,8 @@ def main(argv):
         return 2
     ctx = Ctx(prop, a.tier)
     ctx.P = P
+    if getattr(P, "renamed", None):
+        ctx.note("private items matched with the pinned tree by type / accessor / signature and analysed under their pinned names: " + "; ".join(P.renamed[:12]))
     for fn in _RULES.get(prop, []):
         if getattr(fn, "thorough_only", False) and a.tier != "thorough":
             continue
